@@ -2,4 +2,5 @@
 import hashlib
 
 def obj_seed(obj):
-    return int(hashlib.sha1(hash(obj).to_bytes(8, 'big', signed=True)).hexdigest(), 16)
+    # based on repr() rather than hash(): hash() of strings changes with the interpreter's hash seed
+    return int(hashlib.sha1(repr(obj).encode('utf-8')).hexdigest(), 16)
